@@ -5,6 +5,7 @@ import (
 	"math/rand/v2"
 	"os"
 	"regexp"
+	"strconv"
 	"strings"
 	"time"
 
@@ -53,17 +54,20 @@ func safeRepoProgram(src string) bool {
 }
 
 // interpCorpus returns the repo's runTests programs that are safe, deterministic
-// and not marked #IGNORE (the repo's list of intentional differences).
+// and not marked #IGNORE or #JUSTERR (the repo's own lists of intentional
+// differences in behaviour and in diagnostics).
 func (b *base) interpCorpus() []gen.InterpCase {
 	var out []gen.InterpCase
 	for _, ic := range b.corpus.Interp {
-		if strings.Contains(ic.Want, "#IGNORE") || !safeRepoProgram(ic.In) {
+		if strings.Contains(ic.Want, "#IGNORE") || strings.Contains(ic.Want, "#JUSTERR") || !safeRepoProgram(ic.In) {
 			continue
 		}
 		out = append(out, ic)
 	}
 	return out
 }
+
+var shiftCountRe = regexp.MustCompile(`(<<|>>)=?\s*(-?[0-9]+)`)
 
 var numTokRe = regexp.MustCompile(`(^|[ =(\[])(-?[0-9]+)($|[ ;)\]])`)
 
@@ -75,7 +79,13 @@ func mutateArgs(r *rand.Rand, src string) string {
 	}
 	m := locs[r.IntN(len(locs))]
 	repl := []string{"-1", "0", "1", "2", "3", "10", "255", "256"}[r.IntN(8)]
-	return src[:m[4]] + repl + src[m[5]:]
+	out := src[:m[4]] + repl + src[m[5]:]
+	for _, sm := range shiftCountRe.FindAllStringSubmatch(out, -1) {
+		if n, err := strconv.Atoi(sm[2]); err != nil || n < 0 || n > 63 {
+			return src // shift counts outside 0..63 are undefined in C and in the property
+		}
+	}
+	return out
 }
 
 type progOut struct {
@@ -111,7 +121,7 @@ func (b *base) inShell(shell string, src string) (progOut, error) {
 	if r.Err != nil {
 		return progOut{}, r.Err
 	}
-	return progOut{Stdout: string(r.Stdout), Status: r.Status, Stderr: string(r.Stderr), TimedOut: r.TimedOut}, nil
+	return progOut{Stdout: strings.ReplaceAll(string(r.Stdout), dir, "<SCRATCH>"), Status: r.Status, Stderr: string(r.Stderr), TimedOut: r.TimedOut}, nil
 }
 
 // inInterp runs src with interp.Runner in a fresh scratch directory, with the
@@ -131,7 +141,7 @@ func (b *base) inInterp(src string, extra ...func(*oracle.InterpOpts)) (progOut,
 	if r.ParseErr != nil {
 		return progOut{}, fmt.Errorf("parse: %v", r.ParseErr)
 	}
-	out := progOut{Stdout: string(r.Stdout), Status: r.Status, Stderr: string(r.Stderr), TimedOut: r.TimedOut, Fatal: r.Fatal, Panic: r.Panic}
+	out := progOut{Stdout: strings.ReplaceAll(string(r.Stdout), dir, "<SCRATCH>"), Status: r.Status, Stderr: string(r.Stderr), TimedOut: r.TimedOut, Fatal: r.Fatal, Panic: r.Panic}
 	if r.Err != nil {
 		out.Err = r.Err.Error()
 	}
